@@ -88,6 +88,7 @@ fn edr_body(first_fill: bool, cap: usize, len: usize) {
     assert!(off + ncur == abs_cur, "C04b: the read position is unchanged by refilling");
     assert!(ncur <= nfill && nfill <= it.verif_buffer().len(), "C04b: cursor <= fill <= allocation afterwards");
     assert!(off + nfill >= abs_fill, "C04b: buffered data is only extended");
+    assert!(it.verif_buffer().len() <= if cap > len { cap } else { len }, "C17b: a refill never allocates more than max(current allocation, requested length)");
     assert!(off + nfill == base + it.get_ref().pos, "C04b: every byte the source delivered is in the buffer, none twice");
     // logical view equals the stream
     let a: usize = kani::any();
